@@ -43,6 +43,12 @@ func newSim(w *vsim.World, spec *vsim.Spec, o scenOpts) *sim {
 	s := &sim{w: w, spec: spec, t0: time.Now(), rate: map[string]int{}, everStarted: map[string]int{}, staleUnlock: map[string]bool{}, staleUnlockEarly: map[string]bool{},
 		evOn: map[string]bool{}, origPrio: map[string]int64{}, o: o}
 	w.GateSpawn = true // children of `go` statements start at a scheduler decision, never concurrently with the parent
+	// thorough tier: one run in four is long (2 h horizon, up to 120 containers, long processes);
+	// the others keep the quick tier's shape, because many short and different runs find more
+	s.long = spec.Tier == "thorough" && w.Choose("long-run", 4) == 3
+	if s.long {
+		w.Probe("long-run")
+	}
 	s.k = drawKnobs(w)
 	k := s.k
 	s.cluster = &arvados.Cluster{ClusterID: "zzzzz", SystemRootToken: "simroot"}
@@ -440,15 +446,15 @@ func (s *sim) quietTick() {
 	}
 }
 
-func horizonFor(spec *vsim.Spec) time.Duration {
-	if spec.Tier == "thorough" {
+func (s *sim) horizon() time.Duration {
+	if s.long {
 		return 2 * time.Hour
 	}
 	return 10 * time.Minute
 }
 
-func maxContainers(spec *vsim.Spec) int {
-	if spec.Tier == "thorough" {
+func (s *sim) maxContainers() int {
+	if s.long {
 		return 120
 	}
 	return 40
@@ -458,10 +464,10 @@ func maxContainers(spec *vsim.Spec) int {
 
 func scenC14(w *vsim.World, spec *vsim.Spec) {
 	s := newSim(w, spec, scenOpts{prop: "C14", maxTypes: 3, boundaryPM: 100})
-	s.populate(maxContainers(spec))
+	s.populate(s.maxContainers())
 	s.startDispatcher()
 	s.nextEvent = time.Now().Add(s.lat("first-event", 5*time.Second, time.Second, 20*time.Second))
-	end := time.Now().Add(horizonFor(spec))
+	end := time.Now().Add(s.horizon())
 	s.drive(s.faultsOn, func() bool { return s.settled(false) || time.Now().After(end) })
 	if w.Failed() || w.Truncated() {
 		return
@@ -487,10 +493,10 @@ func scenC16(w *vsim.World, spec *vsim.Spec) {
 			return
 		}
 	}
-	s.populate(maxContainers(spec))
+	s.populate(s.maxContainers())
 	s.startDispatcher()
 	s.nextEvent = time.Now().Add(s.lat("first-event", 5*time.Second, time.Second, 20*time.Second))
-	end := time.Now().Add(horizonFor(spec) / 2)
+	end := time.Now().Add(s.horizon() / 2)
 	s.drive(s.faultsOn, func() bool { return s.settled(false) || time.Now().After(end) })
 	if w.Failed() || w.Truncated() {
 		return
@@ -553,7 +559,7 @@ func (ac *apiCtr) cancelledByUser() bool {
 
 func scenC15(w *vsim.World, spec *vsim.Spec) {
 	s := newSim(w, spec, scenOpts{prop: "C15", maxTypes: 3, boundaryPM: 100})
-	s.populate(maxContainers(spec) / 2)
+	s.populate(s.maxContainers() / 2)
 	s.startDispatcher()
 	// a dispatcher restart at a seeded point in about half of the runs
 	s.evOn["restart"] = false
